@@ -1293,8 +1293,12 @@ def _m_sorted(interp, it, key=None, reverse=False):
 def _m_sum(interp, it, start=0):
     acc = start
     for v in interp.iterate(it):
-        acc = acc + v
+        acc = interp.binop(ast.Add(), acc, v)
     return acc
+
+
+def _opmodel(node):
+    return lambda interp, a, b: interp.binop(node, a, b)
 
 
 def _m_reduce(interp, f, it, *init):
@@ -1366,6 +1370,9 @@ NATIVE_MODELS = {
     sorted: _m_sorted, sum: _m_sum, functools.reduce: _m_reduce, min: _m_min, max: _m_max,
     range: _m_range, reversed: _m_reversed, hasattr: _m_hasattr, getattr: _m_getattr, set: _m_set,
     callable: _m_callable,
+    operator.add: _opmodel(ast.Add()), operator.sub: _opmodel(ast.Sub()), operator.mul: _opmodel(ast.Mult()),
+    operator.truediv: _opmodel(ast.Div()), operator.xor: _opmodel(ast.BitXor()), operator.or_: _opmodel(ast.BitOr()),
+    operator.and_: _opmodel(ast.BitAnd()),
 }
 
 BUILTIN_ENV = {
